@@ -172,3 +172,102 @@ def _chain(L):
     L.prove("starts_after_previous", "b.start_index == a.stop_index + 1")
     L.prove("no_overlap", "b.start_index > a.stop_index")
     L.prove("own_range_nonempty", "b.stop_index >= b.start_index")
+
+
+# ---------------------------------------------------------------- experiment kernel: cycle length, range, estimate
+@specfun("klen_sum")
+def _klen_sum(ex, st, rounds, h, i):
+    """sum over the first i round counts of the kernel lengths  h + max(0, r-1) + 1  (recursive spec function)"""
+    import z3
+    from pyvc.world import V, SAt
+    w = ex.w
+    rounds = ex.to_seq(rounds, "int")
+    S = rounds.t.sort()
+    name = "klen_sum"
+    f = w.uf(name, S, z3.IntSort(), z3.IntSort(), z3.IntSort())
+    hv = h.t if h.kind == "int" else z3.If(h.t, 1, 0)
+    k = i.t
+    # one-step unfolding, instantiated at the point of use (a global recursive axiom would be a matching loop)
+    term = hv + z3.If(SAt(rounds.t, k - 1) - 1 > 0, SAt(rounds.t, k - 1) - 1, 0) + 1
+    st.assume(z3.Implies(k > 0, f(rounds.t, hv, k) == f(rounds.t, hv, k - 1) + term))
+    st.assume(z3.Implies(k == 0, f(rounds.t, hv, k) == 0))
+    st.assume(z3.Implies(k >= 0, f(rounds.t, hv, k) >= k))
+    return V("int", f(rounds.t, hv, k))
+
+
+EXP = dict(self=REF("RepetitionExperimentKernel"))
+WF_EXP = [f"len({KS}) >= 1"]
+
+contract("RepetitionExperimentKernel.indexing_kernels", params=EXP, returns=SEQ(REF("IIndexingKernel")), pure=True, props=P,
+         ensures=[f"len(result) == len({KS}) + 1",
+                  f"forall_int(0, len({KS}), lambda j: result[j] is {KS}[j])",
+                  f"result[len({KS})] is self._calibration_kernel"])
+
+contract("RepetitionExperimentKernel.kernel_cycle_length", params=EXP, returns=INT, pure=True, props=P, requires=WF_EXP,
+         ensures=[f"result == self._calibration_kernel.stop_index - {KS}[0].start_index + 1"])
+
+contract("RepetitionExperimentKernel.start_index", params=EXP, returns=INT, pure=True, props=P, requires=WF_EXP,
+         ensures=[f"result == {KS}[0].start_index"])
+
+contract("RepetitionExperimentKernel.stop_index", params=EXP, returns=INT, pure=True, props=P, requires=WF_EXP,
+         ensures=["result == self.start_index + self._repetitions * self.kernel_cycle_length"])
+
+contract("RepetitionExperimentKernel.estimate_experiment_repetitions",
+         params=dict(rounds=SEQ(INT), heralded_initialization=BOOL, qutrit_calibration_points=BOOL, dataset_size=INT),
+         returns=INT, props=P, pure=True,
+         requires=["len(rounds) >= 1", "dataset_size >= 0"],
+         let={"h": "ite(heralded_initialization, 1, 0)",
+              "L": "klen_sum(rounds, ite(heralded_initialization, 1, 0), len(rounds)) + ite(qutrit_calibration_points, 3 * ite(heralded_initialization, 1, 0) + 3, 0)"},
+         raises={"AssertionError": "dataset_size % L != 0"},
+         loops={"0:kinds": {"repetition_kernels": SEQ(REF("RepetitionIndexKernel"))},
+                0: ["len(repetition_kernels) == _i",
+                    "forall_int(0, _i, lambda j: typeis(repetition_kernels[j], RepetitionIndexKernel))",
+                    "forall_int(0, _i, lambda j: repetition_kernels[j].start_index == klen_sum(rounds, h, j))",
+                    "forall_int(0, _i, lambda j: repetition_kernels[j].stop_index == klen_sum(rounds, h, j + 1) - 1)"]},
+         ensures=["result * L == dataset_size"])
+
+
+@lemma("cycle_length_closed_form", props=P,
+       note="induction over the chain: kernel j occupies [klen_sum(j), klen_sum(j+1)-1]; the cycle length of the experiment "
+            "kernel is klen_sum(len) + 3h + 3 (the calibration kernel is always part of the cycle)")
+def _closed(L):
+    L.sym("rounds", SEQ(INT))
+    L.sym("h", BOOL)
+    a = L.sym("a", REF("RepetitionIndexKernel"))
+    b = L.sym("b", REF("RepetitionIndexKernel"))
+    L.sym("j", INT)
+    L.assume("typeis(a, RepetitionIndexKernel) and typeis(b, RepetitionIndexKernel)")
+    L.assume("0 <= j and j + 1 < len(rounds)")
+    L.assume("a.nr_repeated_parities == rounds[j] and b.nr_repeated_parities == rounds[j + 1]")
+    L.assume("a.heralded_initialization == h and b.heralded_initialization == h")
+    # base: a kernel with the fixed offset 0
+    B = L.case()
+    B.assume("j == 0 and let(a.index_offset_strategy, lambda s: typeis(s, FixedIndexStrategy) and s.index == 0)")
+    B.prove("base_start", "a.start_index == klen_sum(rounds, h, 0)")
+    B.prove("base_stop", "a.stop_index == klen_sum(rounds, h, 1) - 1")
+    # step: b follows a
+    S = L.case()
+    S.assume("a.stop_index == klen_sum(rounds, h, j + 1) - 1")
+    S.assume("let(b.index_offset_strategy, lambda s: typeis(s, RelativeIndexStrategy) and s.reference_index_kernel is a)")
+    S.prove("step_start", "b.start_index == klen_sum(rounds, h, j + 1)")
+    S.prove("step_stop", "b.stop_index == klen_sum(rounds, h, j + 2) - 1")
+    # calibration kernel behind the last repetition kernel
+    C = L.case()
+    C.sym("c", REF("QutritCalibrationIndexKernel"))
+    C.assume("typeis(c, QutritCalibrationIndexKernel) and c.heralded_initialization == h")
+    C.assume("b.stop_index == klen_sum(rounds, h, len(rounds)) - 1")
+    C.assume("let(c.index_offset_strategy, lambda s: typeis(s, RelativeIndexStrategy) and s.reference_index_kernel is b)")
+    C.prove("cycle_length", "c.stop_index - 0 + 1 == klen_sum(rounds, h, len(rounds)) + 3 * ite(h, 1, 0) + 3")
+
+
+@lemma("estimate_inverts_with_calibration", props=P,
+       note="estimate(rounds, h, True, reps * cycle_length) == reps, with cycle_length the closed form proved above")
+def _inv(L):
+    L.sym("rounds", SEQ(INT))
+    L.sym("hb", BOOL)
+    L.sym("reps", INT)
+    L.assume("len(rounds) >= 1 and reps >= 0")
+    L.define("cyc", "klen_sum(rounds, hb, len(rounds)) + 3 * ite(hb, 1, 0) + 3")
+    L.assume("cyc >= 1")
+    L.define("est", "RepetitionExperimentKernel.estimate_experiment_repetitions(rounds, hb, True, reps * cyc)")
+    L.prove("inverse", "est == reps")
